@@ -194,7 +194,10 @@ func (C18) Run(c core.Case, ctx *core.Ctx) []core.Violation {
 					}
 				} else {
 					ctx.St.Inc("c18_unreachable_checked")
-					for _, pv := range path[:len(path)-1] {
+					for i, pv := range path {
+						if i == len(path)-1 {
+							break // the target itself
+						}
 						if idOf(graphx.VertexID(pv)) == src {
 							add("unreachable-chain-reaches-source", "Dijkstra", fmt.Sprintf("src=%d unreachable v=%d chain %v", src, v, pathIDs(path)))
 							break
